@@ -6,7 +6,7 @@ import hashlib
 import struct
 from .common import load_corpus, rbytes
 
-MAKE_TARGETS = ['Proofs/Merkle.vo', 'Proofs/Weight.vo']
+MAKE_TARGETS = ['Proofs/Merkle.vo', 'Proofs/Weight.vo', 'Proofs/MerkleWire.vo']
 TIES = []
 ALLOWED_AXIOMS = []
 PARTIAL = []   # the parametric weight theorems are instantiated with the wire model in Proofs/Weight.v (C15_tx_weight, C15_block_weight)
@@ -16,6 +16,8 @@ ASSUMPTIONS = [
     'engines 1503/1505/1506: txid, wtxid, has_witness and serialised sizes of the generated real transactions are '
     'read from IMPL (transaction wire model not available yet); the merkle / constructor / weight logic on top of '
     'them is what is compared',
+    'engine 1510 reads nothing from IMPL: the block is built from transaction values and txid / wtxid / has_witness '
+    'come from the wire model (theorems C15_roots_from_wire, C15_constructor_from_wire)',
     'NoWitnessData is observed as the harness\'s generic "other exception" code',
 ]
 RULE = ('transaction counts 1..70, 127/128/129, 255/256/257 (thorough: 511..513, 1023..1025 and random counts up to '
@@ -138,6 +140,9 @@ def classify(e, a, iv):
         else:
             k = repr(out)
         return 'op3 n=%s %s' % ('0' if not a[2] else '1' if len(a[2]) == 1 else '2+', k)
+    if op == 10:
+        return 'op10 n=%s %s%s' % ('1' if len(a[0][1]) == 1 else '2+', 'zero' if a[0][0][2] == b'\x00' * 32 else 'declared',
+                                   '' if isinstance(iv, list) else ' refused')
     if op == 5 and isinstance(iv, list):
         return 'op5 %s' % ('null-witness' if iv[2] else 'witness')
     return 'op%d' % op
@@ -254,4 +259,17 @@ def generate(rng, tier, boost):
             cases.append((1509, [t, t2]))
     for _ in range(100 if (tier == 'thorough' or boost) else 12):
         cases.append((1508, [W.rand_block(rng)]))
+    # 1510: roots and constructor check with NOTHING read from IMPL (transactions as values; txid / wtxid
+    # by the wire model): declared root zero / correct / byte-reversed / one bit off / txid of tx 0 / random
+    for i in range(600 if (tier == 'thorough' or boost) else 90):
+        b = W.rand_block(rng, ntx=rng.choice([1, 1, 2, 2, 3, 4, 5, 7, 8, 9]))
+        if i % 5 == 0:
+            for t in b[1]:
+                t[3] = []                                        # no witness data anywhere: NoWitnessData
+        txids = [dsha(W.ser_tx(t, False)) for t in b[1]]
+        root = ref_root(txids)
+        for d in (zero, root, root[::-1], bytes([root[0] ^ 1]) + root[1:], txids[0], rbytes(rng, 32))[:6 if i % 3 == 0 else 3]:
+            h = list(b[0])
+            h[2] = d
+            cases.append((1510, [[h, b[1]]]))
     return cases
